@@ -5,7 +5,7 @@ from fw import g_bool, g_list, g_str
 PID = 'C15'
 CHK = 'Chk_C15'
 IMPORTS = ('Tree',)
-RULE = ('random directory trees (depth <= 4) mixing x.py / x.pyc / x.pyo with and without a sibling .py, look-alikes '
+RULE = ('[history cases: two in-process runs sharing one defaults list, the first with -j 2] ' + 'random directory trees (depth <= 4) mixing x.py / x.pyc / x.pyo with and without a sibling .py, look-alikes '
         '(x.pyc.bak, ".pyc", "pyc", X.PYC, x.pyo.py, directory named y.py), __pycache__, default-ignored dirs (.git, CVS, '
         '.svn …), --ignore_dir additions, non-identifier and node_modules dirs, unrelated files; materialised in shuffled '
         'creation order; options: -k / --usecompiled / neither, one or several --path / --test-path roots (nested, '
@@ -84,7 +84,41 @@ def generate(rng, tier, rep):
         rep.count('keep=%s' % bool(set(flags) & {'-k', '--usecompiled', '--keepbytecode'}))
         rep.count('roots=%d' % k)
         rep.count('mode=' + cases[-1]['mode'])
+    # history: an embedding program runs the tests twice in one interpreter with the same list of default options - first
+    # with -j 2 (a layer runs in a subprocess), then again after compiled files have reappeared: the second run cleans up like a first
+    for k in range({'quick': 6, 'thorough': 40, 'search': 0}[tier]):
+        tree = [e for e in rand_dir(rng, rng.randint(1, 3)) if e[1] != 'vhist_tests.py'] + [['f', 'vhist_tests.py', VHIST]]
+        flags = [[], [], [], ['-k'], ['--ignore_dir', 'pkg']][k % 5]
+        cases.append({'tree': tree, 'roots': [['--path', []]], 'flags': flags, 'extra_ign': (['pkg'] if 'pkg' in flags else []),
+                      'mode': 'history', 'order_seed': rng.randint(0, 10 ** 6)})
+        rep.count('mode=history')
     return cases
+
+
+VHIST = '''import unittest
+
+
+class HistLayer:
+    @classmethod
+    def setUp(cls):
+        pass
+
+    @classmethod
+    def tearDown(cls):
+        pass
+
+
+class T(unittest.TestCase):
+    layer = HistLayer
+
+    def test_it(self):
+        pass
+
+
+class U(unittest.TestCase):
+    def test_unit(self):
+        pass
+'''
 
 
 def observe(cases):
